@@ -38,6 +38,10 @@ func (ex *Exec) SMTText(o *Obligation, wantModel bool) string {
 	for _, n := range ex.heapOrder {
 		fmt.Fprintf(&sb, "(declare-const %s_0 %s)\n", n, ex.heapSorts[n])
 	}
+	for _, a := range ex.axioms {
+		sb.WriteString(a)
+		sb.WriteString("\n")
+	}
 	sb.WriteString(ex.Lits.Axioms())
 	for _, d := range o.Decls {
 		sb.WriteString(d)
